@@ -12,6 +12,7 @@ pub mod c12;
 pub mod c13;
 pub mod c14;
 pub mod c15;
+pub mod c16;
 
 pub fn get(id: &str) -> Option<Box<dyn Check>> {
     match id {
@@ -26,6 +27,7 @@ pub fn get(id: &str) -> Option<Box<dyn Check>> {
         "C13" => Some(Box::new(c13::C13)),
         "C08" => Some(Box::new(c08::C08)),
         "C07" => Some(Box::new(c07::C07)),
+        "C16" => Some(Box::new(c16::C16)),
         "C05" => Some(Box::new(c05::C05)),
         _ => None,
     }
